@@ -255,6 +255,8 @@ impl Expression for ExpressionIndex {
             (Err(err), _) => Err(err),
             (_, Err(err)) => Err(err),
             (Ok(left_value), Ok(index_value)) => {
+                // Read the index before locking the indexed value: both may be the same object.
+                let index_number = numeric_to_integer(index_value.lock().unwrap().deref());
                 let mut data_ref = left_value.lock().unwrap();
                 let data = data_ref.deref_mut();
                 match data {
@@ -280,7 +282,7 @@ impl Expression for ExpressionIndex {
                         },
                         Err(err) => Err(err),
                     },
-                    Data::Array(m) => match numeric_to_integer(index_value.lock().unwrap().deref()) {
+                    Data::Array(m) => match index_number {
                         Some(index) => match m.get(index as usize) {
                             None => Err(format!("Index not found: {} (len={})", index, m.len())),
                             Some(value) => Ok(value.clone()),
@@ -385,8 +387,9 @@ impl Expression for ExpressionAssign {
                 Ok(v) => match right_result {
                     Err(err) => Err(err),
                     Ok(right_arc) => {
-                        let right_guard = right_arc.lock().unwrap();
-                        match right_guard.deref() {
+                        // Work on a copy: source and destination may be the same object.
+                        let right_data = right_arc.lock().unwrap().clone();
+                        match &right_data {
                             Data::Integer(_)
                             | Data::Double(_)
                             | Data::String(_)
@@ -398,13 +401,11 @@ impl Expression for ExpressionAssign {
                                 if v.is_readonly() {
                                     Err(format!("Can't set read-only {v}"))
                                 } else {
-                                    right_guard
-                                        .deref()
-                                        .clone_into(v.lock().unwrap().deref_mut());
+                                    right_data.clone_into(v.lock().unwrap().deref_mut());
                                     Ok(v.clone())
                                 }
                             }
-                            Data::Error(_) | Data::None() => Err(format!("Can't assign from '{}'", right_guard)),
+                            Data::Error(_) | Data::None() => Err(format!("Can't assign from '{}'", right_data)),
                         }
                     }
                 },
@@ -451,11 +452,9 @@ impl Expression for ExpressionAssignUndefined {
             match left_result {
                 Err(err) => Err(err),
                 Ok(left_value) => {
-                    right_result
-                        .lock()
-                        .unwrap()
-                        .deref()
-                        .clone_into(left_value.lock().unwrap().deref_mut());
+                    // Work on a copy: source and destination may be the same object.
+                    let right_data = right_result.lock().unwrap().clone();
+                    right_data.clone_into(left_value.lock().unwrap().deref_mut());
                     Ok(left_value.clone())
                 }
             }
